@@ -166,7 +166,7 @@ class Run:
         with open(path, "w") as f:
             json.dump({"property": self.prop, "kind": kind, "seed": self.seed, "tier": self.tier, **payload}, f,
                       indent=1, default=str)
-        return path
+        return os.path.relpath(path, VERIF)
 
     def finish(self, audit: dict, violations: list[tuple[str, bool]]) -> int:
         """violations: list of (replay_path, failing_input_found)."""
